@@ -219,7 +219,8 @@ class KvsDriver:
 
 
 TKEYS = ["a", "b", "d/e"]
-TRANGE = {1: range(0, 25), 2: range(5, 35), 3: range(100, 125), 4: range(3, 7), 5: range(24, 31)}
+TRANGE = {1: range(0, 25), 2: range(5, 35), 3: range(100, 125), 4: range(3, 7), 5: range(24, 31), 6: range(20, 28)}
+EXTRA_COL = {6}          # table 6 has a second column q: a stored row wins as a WHOLE (its q stays undefined)
 
 
 def run_tables(ev, vd, thorough, seed):
@@ -249,7 +250,8 @@ def run_tables(ev, vd, thorough, seed):
     from klongpy.db.helpers import serialize_df, df_memory_usage
     k = KlongInterpreter()
     k('.py("klongpy.db")')
-    dfs = {t: pd.DataFrame({"s": [f"{t}-{i}" for i in rng]}, index=list(rng)) for t, rng in TRANGE.items()}
+    dfs = {t: pd.DataFrame(dict({"s": [f"{t}-{i}" for i in rng]}, **({"q": [1000 + i for i in rng]} if t in EXTRA_COL else {})), index=list(rng))
+           for t, rng in TRANGE.items()}
     for t, df in dfs.items():
         k[f"t{t}"] = Table(df)
     m1, m3 = int(df_memory_usage(dfs[1])), int(df_memory_usage(dfs[3]))
@@ -275,13 +277,15 @@ def run_tables(ev, vd, thorough, seed):
                 internal = False
                 try:
                     if e["op"] == "set":
-                        ev_["rows"] = [[i, e["t"]] for i in TRANGE[e["t"]]]
+                        ev_["rows"] = [[i, e["t"] + (100 if e["t"] in EXTRA_COL else 0)] for i in TRANGE[e["t"]]]
                         k(f'tbs,"{e["key"]}",,t{e["t"]}')
                     elif e["op"] == "get":
                         r = k(f'tbs?"{e["key"]}"')
                         if isinstance(r, Table):
                             df = r.get_dataframe()
-                            ev_["und"], ev_["obs"] = False, [[int(i), int(str(sv).split("-")[0])] for i, sv in zip(df.index, df["s"])]
+                            qs = list(df["q"]) if "q" in df.columns else [None] * len(df)
+                            ev_["und"], ev_["obs"] = False, [[int(i), int(str(sv).split("-")[0]) + (100 if (qv is not None and qv == qv) else 0)]
+                                                             for i, sv, qv in zip(df.index, df["s"], qs)]
                         else:
                             ev_["und"], ev_["obs"] = True, []
                     elif e["op"] == "reopen":
